@@ -118,7 +118,8 @@ func runPrefix(e *core.Env) {
 		"the file loader and a second-generation reload are compared with the linear Prefix.Contains model on first/last address of every prefix +-1, the sibling across the prefix boundary, IPv4-mapped twins and random addresses. " +
 		"Classes = (size bucket, families present, whether the writer buffer boundary was crossed, eol)")
 	n := e.N(300, 20000)
-	core.Parallel(e, "prefix", n, 3, func(i int) {
+	observeLoadError(e)
+	core.Parallel(e, "prefix", n, 2, func(i int) {
 		r := core.NewRNG(e.Seed, "c10-prefix", i)
 		np := r.Pick(0, 1, 2, 5, 20, 100, 100, 1000)
 		if r.Chance(1, 25) {
@@ -269,7 +270,9 @@ func runPrefix(e *core.Env) {
 			if err := os.WriteFile(path, t2, 0o644); err == nil {
 				s4, err := prefixset.Config{Name: "p", Path: path}.LoadPrefixSet()
 				if err != nil {
-					fail("prefix_load_error", "file", map[string]any{"error": err.Error()}, "LoadPrefixSet failed on the written file: %v", err)
+					// the error may quote bytes of the (already unmapped) file: format it defensively
+					et, _ := errText(err)
+					fail("prefix_load_error", "file", map[string]any{"error": et}, "LoadPrefixSet failed on the written file: %s", et)
 				} else {
 					cmp("file", s4)
 				}
@@ -292,4 +295,26 @@ func runPrefix(e *core.Env) {
 			rec.Sample(2, map[string]any{"prefixes": np, "text": trunc(text, 300), "probes": len(probes), "probes_inside": in})
 		}
 	})
+}
+
+// observeLoadError records, as a note only, what happens outside the property:
+// a malformed prefix set file. LoadPrefixSet maps the file, parses it and
+// unmaps it; the parse error it returns still quotes the mapped bytes.
+func observeLoadError(e *core.Env) {
+	if e.WorkDir == "" {
+		return
+	}
+	path := filepath.Join(e.WorkDir, "malformed-prefixes.txt")
+	if os.WriteFile(path, []byte("10.0.0.0/8\nnot-a-prefix\n"), 0o644) != nil {
+		return
+	}
+	defer os.Remove(path)
+	_, err := prefixset.Config{Name: "bad", Path: path}.LoadPrefixSet()
+	if err == nil {
+		e.Rec.Note("outside the property: LoadPrefixSet accepted a file with the line %q", "not-a-prefix")
+		return
+	}
+	if et, faulted := errText(err); faulted {
+		e.Rec.Note("outside the property (error path): the error LoadPrefixSet returns for a malformed file cannot be printed: %s", et)
+	}
 }
